@@ -5,12 +5,16 @@ import A2lVerif.Driver.Sort
 import A2lVerif.Driver.Tree
 import A2lVerif.Driver.Lex
 import A2lVerif.Driver.Graph
+import A2lVerif.Driver.Cleanup
+import A2lVerif.Driver.Include
 /-! `a2lmodel`: one request per line on stdin, one canonical answer per line on stdout. -/
 open A2l
 
 def dispatch (line : String) : String :=
   match (line.trimAscii.toString.splitOn " ").filter (· ≠ "") with
   | "il" :: args => IL.handle args
+  | "cln" :: args => Cl.handle args
+  | "inc" :: args => Inc.handle args
   | "lim" :: args => Lim.handle args
   | "a2l" :: args => Tree.handle args
   | "lex" :: args => Lex.handle args
